@@ -1,8 +1,12 @@
 -- driver for C08: gcno/gcda model (same handler as gm_c15)
 import GrcovModel.Drv.C08
+import GrcovModel.Drv.C08MultiBlock
 open Grcov.Drv
 
-def step (line : String) : String := stepC08 line
+def step (line : String) : String :=
+  match (line.trimAscii.toString.splitOn " ").filter (· ≠ "") with
+  | "c08.mb" :: args => handleC08MultiBlock args
+  | _ => stepC08 line
 
 partial def loop (h : IO.FS.Stream) (out : IO.FS.Stream) : IO Unit := do
   let line ← h.getLine
